@@ -124,6 +124,7 @@ def run(rep):
     def variants(case, idx):
         v = crop.default_variants(case, idx)
         v["sow_override"] = (idx % 2 == 0)      # (these histories only sow / reload / re-sow)
+        v["resow_drop_consts"] = (idx % 3 == 0) and not any(ev["a"] in ("grow", "grow_missing", "reap") for ev in case["hist"])
         return v
     crop.drive(rep, runs, variants=variants, claims=lambda tag: tag in ("batches", "numbers", "outcome_sow", "outcome_reload", "obs_sow", "obs_reload",
                                                      "dir_sow", "dir_reload", "outcome_resow", "obs_resow", "dir_resow"))
